@@ -12,7 +12,7 @@ Vec(e, f) ==
   LET ev == Eval(e, EmptyPath)  v == ev.v IN
   [fam |-> f,
    expr |-> Render(e, "min", 0),
-   variants |-> <<Render(e, "full", 0), Render(e, "min", 1), Render(e, "full", 2), Render(e, "min", 2)>>,
+   variants |-> <<Render(e, "full", 0), Render(e, "min", 1), Render(e, "full", 2), Render(e, "min", 2), Render(e, "min", 3), Render(e, "full", 3)>>,
    prog |-> Compile(e),
    calls |-> ev.calls,
    t |-> v.t, vclass |-> ValClass(v), judged |-> v.j,
